@@ -6,6 +6,8 @@
 package main
 
 import (
+	"context"
+	"errors"
 	"fmt"
 	"os"
 	"strings"
@@ -22,7 +24,18 @@ import (
 
 // ---- observation of "a failure fired" in the real run -------------------------------------------
 
-type fired struct{ any bool }
+type fired struct {
+	any  bool
+	text string // the message every injected failure of this case carries
+}
+
+// errorTexts: the property holds whatever a failure's message says.  The family contains texts that look like
+// the stop signals operators use among themselves (the Limit node recognises its own by strings.Contains on
+// the error text, because errors lose their identity across the plugin barrier).
+var errorTexts = []string{"verif: injected failure", "limit reached", "rate limit reached for client 42", "limit 01ARZ3NDEKTSV4RRFFQ69G5FAV reached",
+	"couldn't run source: limit reached", "context canceled", "EOF", ""}
+
+func (f *fired) err() error { return errors.New(f.text) }
 
 // source: lib.ScriptSource plus the record that the injected failure was reached
 type scriptSource struct {
@@ -42,7 +55,7 @@ func (s *scriptSource) Run(ctx execution.ExecutionContext, produce execution.Pro
 	time.Sleep(s.delayEnd)
 	if s.fail {
 		s.f.any = true
-		return lib.ErrInjected
+		return s.f.err()
 	}
 	return nil
 }
@@ -107,10 +120,17 @@ func (g *goExpr) Evaluate(ctx execution.ExecutionContext) (octosql.Value, error)
 	return g.panic.Evaluate(ctx)
 }
 
+// textExpr: the argument of the real panic(): this case's failure text
+type textExpr struct{ f *fired }
+
+func (t *textExpr) Evaluate(ctx execution.ExecutionContext) (octosql.Value, error) {
+	return octosql.NewString(t.f.text), nil
+}
+
 var panicFn = functions.FunctionMap()["panic"].Descriptors[0].Function
 
 func mkExpr(e cexpr, f *fired) execution.Expression {
-	return &goExpr{e: e, f: f, panic: execution.NewFunctionCall(panicFn, []execution.Expression{&goExpr{e: cexpr{kind: "const", v: octosql.NewString("verif")}}}, nil)}
+	return &goExpr{e: e, f: f, panic: execution.NewFunctionCall(panicFn, []execution.Expression{&textExpr{f: f}}, nil)}
 }
 
 // joined side of a lookup join (Model/ErrorFlow.v joined_script)
@@ -131,7 +151,7 @@ func (j *joinedNode) Run(ctx execution.ExecutionContext, produce execution.Produ
 			return err
 		}
 		j.f.any = true
-		return lib.ErrInjected
+		return j.f.err()
 	}
 	for i := 0; i < len(vals); i++ {
 		if err := produce(pctx, execution.NewRecord([]octosql.Value{x}, false, lib.T(0))); err != nil {
@@ -410,14 +430,14 @@ func hasKind(ops []*plan, kind string) int {
 	return -1
 }
 
+// classOf: 0 nil, 1 error, 3 panic.  (An escaped LIMIT sentinel is not told apart by its text: failure texts of
+// the family above look the same; it shows as an error although nothing fired, which the tie reports.)
 func classOf(err error, panicked interface{}) int {
 	switch {
 	case panicked != nil:
 		return 3
 	case err == nil:
 		return 0
-	case strings.Contains(err.Error(), "limit ") && strings.Contains(err.Error(), " reached"):
-		return 2
 	}
 	return 1
 }
@@ -440,8 +460,10 @@ func main() {
 		"non-trivial = a failure fired under at least one operator (in-process) / the failure is certainly reached (CLI); distinct by full case text"
 
 	inproc := f.Cases(450, 4500)
+	textRng := rng.Fork()
 	addCase := func(root *plan, level int) {
-		fl := &fired{}
+		fl := &fired{text: errorTexts[textRng.Intn(len(errorTexts))]}
+		cf.Count("failure_text:" + fl.text)
 		node := root.build(fl)
 		out, err, p := lib.RunNode(node)
 		cls := classOf(err, p)
@@ -450,7 +472,7 @@ func main() {
 		if err != nil {
 			errText = err.Error()
 		}
-		js := map[string]interface{}{"plan": root.describe(), "plan_coq": root.coq(), "level": level, "output": lib.EventsJSON(out), "error_class": cls, "error": errText, "failure_fired": fl.any}
+		js := map[string]interface{}{"plan": root.describe(), "plan_coq": root.coq(), "level": level, "output": lib.EventsJSON(out), "error_class": cls, "error": errText, "failure_fired": fl.any, "failure_text": fl.text}
 		idx := cf.Add(coq, js, fl.any)
 		cf.Count("class_" + fmt.Sprint(cls))
 		if fl.any {
@@ -565,6 +587,12 @@ func main() {
 		runQueryExprCase(cf, r)
 	}
 
+	// joins with a stalled consumer and a failing side that is 0, capacity-1, capacity, capacity+1 messages ahead of
+	// the receive loop when it fails (the producers hand their messages over a 10000-slot channel)
+	for i := 0; i < f.Cases(8, 32); i++ {
+		runStalledJoinCase(cf, rng.Fork(), i)
+	}
+
 	runCLI(cf, rng, f)
 
 	if err := cf.Write(f.Out); err != nil {
@@ -576,7 +604,7 @@ func main() {
 // runQueryExprCase: Map [col0, (SELECT ... sub)] over an outer script; the subquery is a stack over a failing script.
 // The model side is the plan of the subquery alone (C06_query_expr); the Go oracle checks the enclosing Map.
 func runQueryExprCase(cf *lib.CaseFile, r *lib.Rng) {
-	fl := &fired{}
+	fl := &fired{text: errorTexts[r.Intn(len(errorTexts))]}
 	ops := genStack(r, r.Intn(2), "", true, true)
 	for _, o := range ops {
 		if o.kind == "sgb" || o.kind == "ost" || o.kind == "cgb" {
@@ -629,5 +657,72 @@ func runQueryExprCase(cf *lib.CaseFile, r *lib.Rng) {
 	}
 	if p != nil {
 		cf.Violation(idx, fmt.Sprintf("panicked: %v", p), "")
+	}
+}
+
+const joinChannelCapacity = 10000 // make(chan chanMessage, 10000) in stream_join.go / outer_join.go
+
+// runStalledJoinCase: one side is the record [1,1]; the other side is [1,1], then `ahead` records that match nothing,
+// then a failure.  The single-record side finishes first, the other side's first record matches, and the consumer
+// stalls on that first output row for a moment: meanwhile the failing producer runs `ahead` messages ahead and fails.
+// Spec only (no model run: the theorem C06_plan_fails covers every interleaving and every length).
+func runStalledJoinCase(cf *lib.CaseFile, r *lib.Rng, i int) {
+	aheads := []int{0, joinChannelCapacity - 1, joinChannelCapacity, joinChannelCapacity + 1}
+	ahead := aheads[i%len(aheads)]
+	outer := (i/len(aheads))%2 == 1
+	failLeft := r.Bool()
+	fl := &fired{text: errorTexts[r.Intn(len(errorTexts))]}
+	key := []octosql.Value{octosql.NewInt(1), octosql.NewInt(1)}
+	long := []lib.Event{{Rec: execution.NewRecord(key, false, lib.T(0))}}
+	for k := 0; k < ahead; k++ {
+		long = append(long, lib.Event{Rec: execution.NewRecord([]octosql.Value{octosql.NewInt(0), octosql.NewInt(int64(k))}, false, lib.T(0))})
+	}
+	failing := &scriptSource{events: long, fail: true, f: fl, delayStart: 5 * time.Millisecond}
+	short := &scriptSource{events: []lib.Event{{Rec: execution.NewRecord(key, false, lib.T(0))}}, f: fl}
+	var left, right execution.Node = failing, short
+	if !failLeft {
+		left, right = short, failing
+	}
+	keys := func() []execution.Expression { return []execution.Expression{mkExpr(cexpr{kind: "col", i: 0}, fl)} }
+	var node execution.Node
+	if outer {
+		node = nodes.NewOuterJoin(left, right, 2, 2, keys(), keys(), true, false)
+	} else {
+		node = nodes.NewStreamJoin(left, right, keys(), keys())
+	}
+	rows, stalled := 0, false
+	var err error
+	p := func() (p interface{}) {
+		defer func() { p = recover() }()
+		err = node.Run(execution.ExecutionContext{Context: context.Background()},
+			func(ctx execution.ProduceContext, record execution.Record) error {
+				rows++
+				if !stalled {
+					stalled = true
+					time.Sleep(150 * time.Millisecond)
+				}
+				return nil
+			},
+			func(ctx execution.ProduceContext, msg execution.MetadataMessage) error { return nil })
+		return nil
+	}()
+	cls := classOf(err, p)
+	kind := "sjoin"
+	if outer {
+		kind = "ojoin"
+	}
+	side := "right"
+	if failLeft {
+		side = "left"
+	}
+	js := map[string]interface{}{"plan": fmt.Sprintf("%s with a consumer that stalls on the first output row; the %s side is [1,1], %d non-matching records, then FAIL; the other side is [1,1]", kind, side, ahead),
+		"error_class": cls, "failure_fired": fl.any, "failure_text": fl.text, "output_rows": rows}
+	idx := cf.Add(fmt.Sprintf("CCli %s %s", lib.CoqBool(fl.any), lib.CoqBool(cls == 1 || cls == 3)), js, fl.any)
+	cf.Count(fmt.Sprintf("stalled_join_ahead_%d", ahead))
+	if fl.any && cls == 0 {
+		cf.Violation(idx, fmt.Sprintf("a source of a %s failed %d messages ahead of a stalled receive loop and Run returned nil (error swallowed)", kind, ahead), "")
+	}
+	if p != nil {
+		cf.Violation(idx, fmt.Sprintf("join panicked: %v", p), "")
 	}
 }
